@@ -9,7 +9,7 @@
 import re
 
 from ural.patterns import QUERY_VALUE_IN_URL_TEMPLATE
-from ural.utils import unquote, urljoin
+from ural.utils import unquote, urljoin, urlsplit
 
 OBVIOUS_REDIRECTS_RE = re.compile(
     QUERY_VALUE_IN_URL_TEMPLATE
@@ -71,8 +71,14 @@ def infer_redirection(url, recursive=True):
             elif potential_target.startswith("/"):
                 # NOTE: urljoin raises on unbalanced brackets in a netloc
                 # (e.g. `http://a.com/?u=//[x`): nothing can be inferred then
+                # NOTE: a url given without scheme has no netloc to join with,
+                # we lend it one for the time of the join
                 try:
-                    target = urljoin(url, potential_target)
+                    lent = not urlsplit(url).netloc
+                    target = urljoin("http://" + url if lent else url, potential_target)
+
+                    if lent and target.startswith("http://"):
+                        target = target[7:]
                 except ValueError:
                     pass
 
